@@ -291,7 +291,28 @@ class SlotsError(Exception):
     __slots__ = ()
 
 
-EXC_TYPES = {"frozen": FrozenError, "badstr": BadStrError, "slots": SlotsError, "exc": BoomError, "base": BoomBase, "kbi": KeyboardInterrupt, "exit": SystemExit,
+class EmptyRowsError(Exception):
+    """An exception instance that is falsy (it defines __len__, e.g. 'the rows that were rejected': none)."""
+
+    def __len__(self):
+        return 0
+
+
+class LenLiar:
+    """An iterable whose len() is not the number of items it yields (a table: len = rows, iteration = columns)."""
+
+    def __init__(self, items, fake_len):
+        self.items = list(items)
+        self.fake_len = fake_len
+
+    def __iter__(self):
+        return iter(self.items)
+
+    def __len__(self):
+        return self.fake_len
+
+
+EXC_TYPES = {"falsy": EmptyRowsError, "frozen": FrozenError, "badstr": BadStrError, "slots": SlotsError, "exc": BoomError, "base": BoomBase, "kbi": KeyboardInterrupt, "exit": SystemExit,
              "val": ValueError}
 
 # ---------------------------------------------------------------------------
@@ -445,7 +466,7 @@ class Gen:
             return {"t": "ret", "v": d(HASHABLE_CONSTS)}
         if self.failures and roll < 2 + self.failures:
             exc = d(st.sampled_from(["exc", "exc", "exc", "val", "base", "kbi", "exit"]
-                                    + (["frozen", "badstr", "slots"] if self.exotic else [])))
+                                    + (["frozen", "badstr", "slots", "falsy"] if self.exotic else [])))
             return {"t": "raise", "exc": exc, "first": -1}
         if self.flaky and roll >= 17:
             return {"t": "raise", "exc": d(st.sampled_from(["exc", "val"])),
@@ -637,7 +658,7 @@ class Gen:
             args = [self.arg() for _ in range(n)]
             node = {"k": "call", "args": args, "kwargs": [], "deps": self.deps(1),
                     "scope": self.scope(), "stored": False,
-                    "beh": {"t": "seq", "as": d(st.sampled_from(["list", "tuple", "gen"]))},
+                    "beh": {"t": "seq", "as": d(st.sampled_from(["list", "tuple", "gen", "lenliar+", "lenliar-"]))},
                     "side": None}
             c = len(self.nodes)
             self.nodes.append(node)  # not referenceable except through the unpack
